@@ -680,7 +680,7 @@ package cache
 //@   modifies lru.Cache::view, lru.Cache::dom, $deletes
 //@   ensures [named]  name != "" && ds.m.dom[box(name)] ==> !shardOf(unbox(ds.m.vals[box(name)], "*dispatcher"), key).cache.dom[keyOf(key)]
 //@   ensures [absent] name != "" && !ds.m.dom[box(name)] ==> forall c *lru.Cache :: c.view == old(c.view) && c.dom == old(c.dom)
-//@   ensures [all]    name == "" ==> forall k any :: ds.m.dom[k] ==> !shardOf(unbox(ds.m.vals[k], "*dispatcher"), key).cache.dom[keyOf(key)]
+//@   ensures [all]    name == "" ==> forall k any {ds.m.dom[k]} :: ds.m.dom[k] ==> !shardOf(unbox(ds.m.vals[k], "*dispatcher"), key).cache.dom[keyOf(key)]
 //@   ensures [locks]  nolocks()
 //@   rangeloop 0: modifies lru.Cache::view, lru.Cache::dom, $deletes
 //@   rangeloop 0: invariant [done] forall k any {$ridx[k]} :: $dom0[k] && $ridx[k] < $ri ==> !shardOf(unbox($vals0[k], "*dispatcher"), key).cache.dom[keyOf(key)]
@@ -691,7 +691,7 @@ package cache
 //@   requires [nolocks] nolocks()
 //@   modifies lru.Cache::view, lru.Cache::dom, $deletes
 //@   ensures [named]  name != "" && defaultDispatchers.m.dom[box(name)] ==> !shardOf(unbox(defaultDispatchers.m.vals[box(name)], "*dispatcher"), key).cache.dom[keyOf(key)]
-//@   ensures [all]    name == "" ==> forall k any :: defaultDispatchers.m.dom[k] ==> !shardOf(unbox(defaultDispatchers.m.vals[k], "*dispatcher"), key).cache.dom[keyOf(key)]
+//@   ensures [all]    name == "" ==> forall k any {defaultDispatchers.m.dom[k]} :: defaultDispatchers.m.dom[k] ==> !shardOf(unbox(defaultDispatchers.m.vals[k], "*dispatcher"), key).cache.dom[keyOf(key)]
 //@   ensures [absent] name != "" && !defaultDispatchers.m.dom[box(name)] ==> forall c *lru.Cache :: c.view == old(c.view) && c.dom == old(c.dom)
 //@   ensures [locks]  nolocks()
 
